@@ -190,8 +190,8 @@ def _spec_table(ctx):
     """-> {spec id: ("fam", sid) | ("spatial", sp)}"""
     q = ctx.quick
     tab = {}
-    fam = (["MM1-422/tight", "MV2-222/mid-thr", "MM1-323/tight"] if q else
-           list(FAM.MEDIUM_SIDS) + ["MM1-323/tight", "MM1-323/mid", "MM2-2222/tight", "MV2-442/mid", "MM1-222/H3",
+    fam = (["MM1-422/tight", "MV2-222/mid-thr", "MM1-323/tight", "MM1-444/s96"] if q else
+           list(FAM.MEDIUM_SIDS) + ["MM1-444/s96", "MM1-933/s160", "MM1-323/tight", "MM1-323/mid", "MM2-2222/tight", "MV2-442/mid", "MM1-222/H3",
                                     "MV1-42/H3", "MM1-1222/tight", "MV1-62/tight"])
     for sid in fam:
         tab[sid] = ("fam", sid)
